@@ -10,6 +10,8 @@ from contracts import suggest, earlystop
 
 
 def main(tier):
+    from pyvc import engine as _E
+    _E.SECOND_SOLVER = (tier == 'thorough')
     chk = report.Check('C06', tier, level='proof',
                        technique='contract-based deductive verification: exceptional postconditions over all paths of the real RPC methods, z3; bounded model query + replay for refutations')
     for t in ('pyvc VC generator and its Python/protobuf models (DESIGN 2, 4)', 'z3 5.1.0',
